@@ -1147,6 +1147,11 @@ class OFConnection (object):
         continue
 
       message_length = message[2] << 8 | message[3]
+      if message_length < 8:
+        # Not even room for the header; the stream can't be framed any more
+        self.log.warning('Bad OpenFlow message length %s', message_length)
+        self.close()
+        break
       if message_length > len(message):
         break
 
